@@ -144,43 +144,49 @@ def run(ctx, repo):
                             'reaches the caller instead of errorKlass' % (b.left.value[:60], len(specs), nargs), b.left.value[:60])
             else:
                 ctx.ok('R1', 'format arity of %r' % b.left.value[:30])
-    # ---- R6 sanity limits: each limit is a raise-guard and the slow limit does not depend on the distance class
-    lims = {}
+    # ---- R6 sanity limits: each documented limit is part of a raise-guard on the velocity; the slow limit does not depend
+    # on the distance class; a fast limit written as its own test sits under its distance class
+    guards = []
     for n in ast.walk(fn):
-        if isinstance(n, ast.If) and isinstance(n.test, ast.Compare) and ast.unparse(n.test.left) == 'velocity' \
-                and isinstance(n.test.comparators[0], ast.Constant) and any(isinstance(r, ast.Raise) for r in n.body):
-            op = type(n.test.ops[0]).__name__
+        if isinstance(n, ast.If) and 'velocity' in ast.unparse(n.test) and any(isinstance(r, ast.Raise) for r in n.body):
+            consts = {float(c.value) for c in ast.walk(n.test) if isinstance(c, ast.Constant) and isinstance(c.value, (int, float)) and not isinstance(c.value, bool)}
             conds = []
             c, p = n, getattr(n, '_parent', None)
             while p is not None and p is not fn:
                 if isinstance(p, ast.If) and c is not p.test:
                     conds.append((ast.unparse(p.test), c in p.body))
                 c, p = p, getattr(p, '_parent', None)
-            lims[(op, n.test.comparators[0].value)] = (n, conds)
-    want = {('Gt', 11.0): 'distance <= 400', ('Gt', 10.0): 'distance > 400', ('Lt', 0.5): None}
-    for k, dcond in want.items():
-        if k not in lims:
-            ctx.finding('R6', '%s::%s::sanity limit velocity %s %s' % (UTILS, FN, k[0], k[1]), UTILS, fn.lineno,
-                        'the documented sanity limit `velocity %s %s` is no longer enforced by a raise of errorKlass' % ('>' if k[0] == 'Gt' else '<', k[1]))
+            guards.append((n, consts, conds))
+    for lim, what in ((11.0, 'too fast up to 400 m'), (10.0, 'too fast beyond 400 m'), (0.5, 'too slow')):
+        hits = [g for g in guards if lim in g[1]]
+        if not hits:
+            ctx.finding('R6', '%s::%s::sanity limit %s' % (UTILS, FN, lim), UTILS, fn.lineno,
+                        'the documented sanity limit %s m/s (%s) is no longer enforced by a raise of errorKlass' % (lim, what))
             continue
-        n, conds = lims[k]
+        n, consts, conds = hits[0]
         dconds = [(t, pol) for t, pol in conds if 'distance <' in t or 'distance >' in t or 'velocity' in t]
-        if dcond is None:
+        if lim == 0.5:
+            if 'distance' in ast.unparse(n.test):
+                dconds = [(ast.unparse(n.test), True)] + dconds
             if dconds:
-                ctx.finding('R6', '%s::%s::slow limit depends on %s' % (UTILS, FN, dconds[0][0]), UTILS, n.lineno,
-                            'the too-slow limit (velocity < 0.5) is only reached when `%s` is %s: for the other events an absurdly slow '
-                            'time is accepted' % (dconds[0][0], dconds[0][1]), "('100', '45:10.5')")
+                dc = [d for d in dconds if 'distance' in d[0]] or dconds
+                ctx.finding('R6', '%s::%s::slow limit depends on the distance class' % (UTILS, FN), UTILS, n.lineno,
+                            'the too-slow limit (0.5 m/s) is only reached when `%s` is %s: for the other events an absurdly slow time is '
+                            'accepted' % (dc[0][0], dc[0][1]), "('100', '45:10.5')")
             else:
                 ctx.ok('R6', 'too-slow limit applies to every distance')
+        elif len(consts & {10.0, 11.0}) == 2 or 'distance' in ast.unparse(n.test):
+            ctx.ok('R6', 'fast limit %s selected inside the test %s' % (lim, unparse(n.test)[:50]))
         else:
-            # the fast limits: guarded by the right distance class (directly, or as the complement in an elif chain)
+            dcond = 'distance <= 400' if lim == 11.0 else 'distance > 400'
             ok = any((t == dcond and pol) for t, pol in dconds) or \
-                (dcond == 'distance > 400' and any(t == 'distance <= 400' and not pol for t, pol in dconds))
+                (lim == 10.0 and any(t == 'distance <= 400' and not pol for t, pol in dconds)) or \
+                (lim == 11.0 and any(t == 'distance > 400' and not pol for t, pol in dconds))
             if ok:
-                ctx.ok('R6', 'fast limit %s for %s' % (k[1], dcond))
+                ctx.ok('R6', 'fast limit %s under %s' % (lim, dcond))
             else:
-                ctx.finding('R6', '%s::%s::fast limit %s class' % (UTILS, FN, k[1]), UTILS, n.lineno,
-                            'the too-fast limit %s is not tied to `%s` (conditions: %s)' % (k[1], dcond, dconds))
+                ctx.finding('R6', '%s::%s::fast limit %s class' % (UTILS, FN, lim), UTILS, n.lineno,
+                            'the too-fast limit %s is not tied to `%s` (conditions: %s)' % (lim, dcond, dconds))
     # ---- R2
     n_ret = 0
     for r in ast.walk(fn):
